@@ -330,7 +330,7 @@ def bitops(facts):
                     events.append((ln, "store" if good else "badstore", txt(e), r if e["op"] == "=" else None))
                 elif isinstance(e, dict) and e.get("k") == "Assign" and e["op"] == "+=" and "count()" in txt(e["r"]):
                     # what the counted bitset was constructed from
-                    o = strip_all(e["r"]).get("obj") if isinstance(strip_all(e["r"]), dict) else None
+                    o = strip(strip_all(e["r"]).get("obj")) if isinstance(strip_all(e["r"]), dict) else None
                     val = None
                     if isinstance(o, dict) and o.get("k") == "Ref" and o.get("d") in sa:
                         c0 = sa[o["d"]]
